@@ -2,6 +2,7 @@
 from __future__ import annotations
 
 import ast
+import copy
 from typing import List, Optional
 
 from . import hand, kinds
@@ -11,6 +12,7 @@ from .hand import (COMPARE_OPS, CONTRACT_OPS, COPY_OPS, EWHOM_OPS, JOIN_OPS, KNO
 from .registries import Handler, handlers
 
 QB = "QBytesTensor"
+RANGE_OPEN_OPS = {"aten.neg", "aten.abs"}  # the image of the int8 range [-128, 127] leaves the range
 
 
 class Rec:
@@ -474,11 +476,40 @@ def _check_ctor(repo, R, h: Handler, hp: HPath, f, line, tparams, ops):
     core = strip_identity_reshape(data, x)
     el = elem_of(core)
     inner = el if el is not None else core
+    # a clamp that removes the lowest integer code (the storage range becomes symmetric) in front of neg / abs
+    symmetrised = None
+    r17_undecided = False
+    if is_op_call(inner) and inner.args and ops & RANGE_OPEN_OPS:
+        a0 = inner.args[0]
+        cl = None
+        if isinstance(a0, ast.Call) and U(a0.func) == "torch.clamp" and a0.args and U(a0.args[0]) == f"{x}._data":
+            cl = a0
+        elif isinstance(a0, ast.Call) and isinstance(a0.func, ast.Attribute) and a0.func.attr == "clamp" and U(a0.func.value) == f"{x}._data":
+            cl = a0
+        if cl is not None:
+            kws = {k.arg: U(k.value) for k in cl.keywords}
+            pos = [U(v) for v in (cl.args[1:] if U(cl.func) == "torch.clamp" else cl.args)]
+            lo = kws.get("min", pos[0] if pos else None)
+            hi = kws.get("max", pos[1] if len(pos) > 1 else None)
+            sym = {"-127", f"-torch.iinfo({x}._data.dtype).max", f"-torch.iinfo({x}.qtype.dtype).max", "-torch.iinfo(torch.int8).max", f"-dtype_info({x}.qtype.dtype).max", f"-dtype_info({x}._data.dtype).max"}
+            symmetrised = lo in sym and hi in (None, "127", f"torch.iinfo({x}._data.dtype).max", f"torch.iinfo({x}.qtype.dtype).max", "torch.iinfo(torch.int8).max")
+            noop = {None, "-128", f"torch.iinfo({x}._data.dtype).min", f"torch.iinfo({x}.qtype.dtype).min", "torch.iinfo(torch.int8).min", f"dtype_info({x}.qtype.dtype).min", f"dtype_info({x}._data.dtype).min"}
+            if symmetrised or lo in noop:
+                symmetrised = bool(symmetrised)  # a clamp that keeps the lowest code changes nothing: judged like the bare payload
+                inner = copy.deepcopy(inner)
+                inner.args[0] = ast.parse(f"{x}._data", mode="eval").body
+            else:
+                r17_undecided = True
+                R("C05", "C05.R17", "unknown", h, line, "", f"clamp `{U(cl)[:70]}` in front of {sorted(ops & RANGE_OPEN_OPS)}: bounds not recognised")
     if not (is_op_call(inner) and inner.args and U(inner.args[0]) == f"{x}._data"):
         if any(isinstance(n, ast.BinOp) for n in ast.walk(data)) and ops <= MOVE_OPS | PRESERVE_OPS | EWHOM_OPS | JOIN_OPS | COPY_OPS:
             R("C06", "C06.R6", "bad", h, line, "payload arithmetic", f"payload term `{dtxt[:70]}` of a move/copy handler contains arithmetic", "any input: codes are altered by a move/copy")
         R("C05", "C05.R4", "bad" if any(isinstance(n, ast.BinOp) for n in ast.walk(data)) else "unknown", h, line, f"payload term for {sorted(ops)}",
           f"payload `{dtxt[:90]}` is not `op({x}._data, ...)`: the payload meets arithmetic or another call", "any input")
+        # whatever the op computes, a payload built from several operands may be broadcast to another shape:
+        # the wrapper's geometry must be the payload's own (C06 is decidable where C05 is not)
+        if is_op_call(inner) and len(inner.args) >= 2:
+            _c06_fields(R, h, hp, f, line, x, ops, reshaping=True)
         return
     # forwarded arguments
     if ops <= PRESERVE_OPS:
@@ -495,6 +526,11 @@ def _check_ctor(repo, R, h: Handler, hp: HPath, f, line, tparams, ops):
     if sc_same:
         if ops <= EWHOM_OPS:
             R("C05", "C05.R4", "ok", h, line, "", f"elementwise positively-homogeneous op on the payload of `{x}`, scale unchanged")
+            if ops & RANGE_OPEN_OPS and not r17_undecided:
+                # the integer storage range [-128, 127] is not closed under negation: -(-128) wraps to -128
+                R("C05", "C05.R17", "ok" if symmetrised else "bad", h, line, f"lowest code under {sorted(ops & RANGE_OPEN_OPS)[0]}",
+                  f"{sorted(ops & RANGE_OPEN_OPS)} applied to the raw integer payload of `{x}` {'after a clamp that removes the lowest code' if symmetrised else 'as it is: the lowest code of the storage type has no counterpart of the opposite sign and wraps'}",
+                  "an activation quantized with a calibrated scale that saturates at the low end (code -128): neg() returns -128*scale where the operation on the dequantized value gives +128*scale")
             if ops & NO_FLOAT8:
                 g = float_guard_ok(hp, [x])
                 R("C05", "C05.R6", "ok" if g else "bad", h, line, f"raw payload of ['{x}'] without float8 guard", f"`{U(inner)[:50]}` on the raw payload {'is' if g else 'is NOT'} guarded against float8 storage", "a float8 operand (no float8 kernel: NotImplementedError)")
